@@ -387,7 +387,7 @@ fn expected_attrs(o: &ObjSpec, toi: &str, sess: &SessSpec, publish_ms: u64) -> (
         a.insert("Content-MD5".to_string(), md5_b64(&o.content()));
     }
     if let Some(e) = &o.etag {
-        a.insert("mbms2012:File-ETag".to_string(), e.clone());
+        a.insert("File-ETag".to_string(), e.clone());
     }
     if let Some(oti) = &o.oti {
         a.insert("FEC-OTI-FEC-Encoding-ID".to_string(), oti.scheme.cp().to_string());
